@@ -202,10 +202,22 @@ var C15 = &sqrun.Check{ID: "C15", QuickBudget: 60, ThoroughBudget: 600,
 				}
 			}
 		})
+		// (4) large messages: around the sizes at which buffered readers and scanners change behaviour
+		big := []int{4095, 4096, 4097, 65534, 65535, 65536, 65537, 70000, 200000}
+		k.parallel(len(big), func(i int) {
+			x := strings.Repeat("x", big[i])
+			for _, sp := range []MsgSpec{
+				{Calls: []Call{{"data", []string{x}}, {"data", []string{"second"}}}, ID: "i", HasID: true},
+				{Calls: []Call{{"data", []string{"d"}}, {"comment", []string{x}}}},
+				{Calls: []Call{{"data", []string{"d", "e"}}}, ID: x, HasID: true},
+			} {
+				checkRoundTrip(k, sp)
+			}
+		})
 		cov := ev.Coverage{"evaluations": k.cases.Load(), "distinct_nontrivial": k.nontriv.Load(), "exhaustive": k.exhaustive(),
-			"payload_strings": len(payloads), "field_strings": nf, "size_family_max_length": maxLen,
+			"payload_strings": len(payloads), "field_strings": nf, "size_family_max_length": maxLen, "large_sizes": big,
 			"samples": []any{MsgSpec{Calls: []Call{{"data", []string{" a\r"}}}, ID: "", HasID: true}, map[string]any{"message": MsgSpec{ID: "i", HasID: true}, "fault": "Write #2 accepts 1 byte"}},
-			"rule":    fmt.Sprintf("every string of <= %d tokens over %q as data and comment payload, and every combination of ID / type (all %d single-line strings of <= 2 tokens, set or unset, incl. the empty string) x 10 Retry values (incl. negative ones down to the int64 minimum) x 3 chunk shapes: (1) round trip UnmarshalText(MarshalText(m)) compared field by field and by re-encoding; WriteTo/MarshalText/String byte-identical; nothing to write => zero bytes; (2) fault enumeration: for every Write call k of the encoding and every j in [0, len(k-th write)] a writer that accepts j bytes of the k-th write and fails; (3) size family: data line, comment line, ID and type of every length 0..%d (faults for every length up to 160 and two in sixteen above). Non-trivial = messages with at least one field / every fault case.", L, toks, nf, maxLen)}
+			"rule":    fmt.Sprintf("every string of <= %d tokens over %q as data and comment payload, and every combination of ID / type (all %d single-line strings of <= 2 tokens, set or unset, incl. the empty string) x 10 Retry values (incl. negative ones down to the int64 minimum) x 3 chunk shapes: (1) round trip UnmarshalText(MarshalText(m)) compared field by field and by re-encoding; WriteTo/MarshalText/String byte-identical; nothing to write => zero bytes; (2) fault enumeration: for every Write call k of the encoding and every j in [0, len(k-th write)] a writer that accepts j bytes of the k-th write and fails; (3) size family: data line, comment line, ID and type of every length 0..%d (faults for every length up to 160 and two in sixteen above), and the round trip of messages of 4 KiB, 64 KiB (each -1, +0, +1), 70 000 and 200 000 bytes. Non-trivial = messages with at least one field / every fault case.", L, toks, nf, maxLen)}
 		return &sqrun.Outcome{Level: "fault_enumeration", Coverage: cov, Assumptions: []string{"IDs containing NUL are outside the round-trip clause (the property says so); negative Retry values round-trip to zero (nothing is written for them)"}}
 	},
 }
